@@ -323,8 +323,8 @@ def build_streams(rng, tier):
     ]
 
 RULE = ("generating sets of su(2^n) (random strings until the closure is all 4^n-1, made minimal / obfuscated by contractions), n=2..4 "
-        "(thorough 5), with repeated members, and inputs whose own graph already has the target number of edges; `randint` scripted from VERIF_SEED, 8 (thorough 32) different tie-breaking streams per input; returned set checked for "
-        "termination, no exception, distinctness, size in [2n+1, |input|] and closure equality (Lean-verified closure); the model explores "
+        "(thorough 5), with repeated members, plus EVERY list of 2..4 letters from X,Y,Z generating su(2) (n=1, size clause 2 there: C20_min_fails_n1), and inputs whose own graph already has the target number of edges; `randint` scripted from VERIF_SEED, 8 (thorough 32) different tie-breaking streams per input; returned set checked for "
+        "termination, no exception, distinctness, size in [2n+1, |input|] (lower bound proved: C20_min_generators) and closure equality (Lean-verified closure); the model explores "
         "EVERY random choice for n<=3 (thorough 4) and must find no stuck retry loop, no IndexError and only property-satisfying results")
 
 # ---- recorded finding: strings recorded as "dependent" that are NOT removable.  A failure is the recorded one only if (a) it is of
